@@ -35,6 +35,9 @@ func sweep() {
 
 func main() {
 	sweep()
+	if len(os.Args) > 1 && os.Args[1] == "sweep" {
+		return
+	}
 	cleanup := rig.UseFastTmp()
 	defer cleanup()
 	defer w.close()
